@@ -17,7 +17,8 @@ import Glom.Model.C01Env
   Hypotheses, each with a satisfying example at the end of the file:
     * `WF F`           the three switches of `_format_t` are on, `_format_path` is given the
                        root, the pickling tables name T, S, A, `Path.__getitem__` slices the
-                       steps, every size limit of the `_BBRepr` instance is >= `minLimit`
+                       steps, every size limit of the `_BBRepr` instance is >= `sys.maxsize`, plain
+                       segments are printed by `bbrepr`, `_format_path` marks its runs of T steps
     * `validArg a`     an argument: a scalar, a container of arguments (a set / frozenset in
                        printed order, a dict in printed key order), a slice object, a nested
                        T expression without `'P'` steps, a nested Path; an index that is a
@@ -34,8 +35,8 @@ import Glom.Model.C01Env
                        builtin `repr` (plain Path segments, parts of slice objects) hold no
                        builtin function and no set of two or more elements.  Forced:
                        `c18_cut_counterexample`, `c18_nonfinite_counterexample`,
-                       `c18_overlong_counterexample`.  `c18_within_min_limit`: sizes up to
-                       `minLimit` = 1024 are inside whatever the instance's limits are.
+                       `c18_overlong_counterexample`.  `c18_within_maxsize`: whatever is no larger
+                       than `sys.maxsize` — every Python object — is inside the instance's limits.
   `c18_path_root_counterexample` keeps the shape of `_format_path` before commit 2a7aadd
   (`WF` requires the new one): `repr(Path(S.a, 'b'))` was `"Path(T.a, 'b')"`.
   Arithmetic-operator reprs are outside the property.
@@ -49,7 +50,7 @@ open Glom Glom.C18
     the roots T, S, A; `Path.__getitem__` indexes / slices the tuple of steps;
     `__len__`, `values`, `items` are the expected expressions on `__ops__`; the
     instance `bbrepr` is bound to is a `reprlib.Repr` whose every int attribute
-    (every size limit of this Python's reprlib) is at least 1024, whose
+    (every size limit of this Python's reprlib) is at least `sys.maxsize`, whose
     fillvalue is `...` and whose `repr` / `repr1` are reprlib's. -/
 theorem c18_facts_wf : WF genFacts = true := by decide
 
@@ -87,17 +88,13 @@ theorem c18_roundtrip_path {L : Type} (F : Facts) (hwf : WF F = true) (root : St
   exact parseObj_fmtPath_repr root steps hv hA
 
 /-- normalising only reorders keyword arguments (and names a segment-free nested Path by the
-    T expression it prints as): it changes neither the repr … -/
+    T expression it prints as): it does not change the repr (and the keyword arguments stay the same
+    dict: `sortKw_perm`) -/
 theorem c18_norm_same_repr {L : Type} (F : FmtFacts) (hF : F.pathRootAware = true) (root : String)
     (steps : List (Step L)) :
     fmtT F root (normSteps steps) = fmtT F root steps ∧
     fmtPath F root (normSteps steps) = fmtPath F root steps :=
   ⟨fmtT_norm F hF root steps, fmtPath_norm F hF root steps⟩
-
-/-- … nor, as a dict, the keyword arguments of a call: same keys, same values -/
-theorem c18_norm_kwargs_perm {α : Type} (kwargs : List (String × α)) :
-    (sortKw kwargs).Perm kwargs :=
-  List.mergeSort_perm kwargs _
 
 /-- **`reprlib`'s limits lose nothing inside them**: when no scalar, container, nesting depth or
     nested instance of `x` exceeds its limit (`fitsObj`), the pass that models `repr1`'s cuts is
@@ -107,22 +104,24 @@ theorem c18_limits_lose_nothing {L : Type} (S : ScalarOps L) (F : FmtFacts) (lim
     x.steps.map (truncStep S F lim) = x.steps ∧ reprLim S F lim x = reprObj F x :=
   ⟨truncSteps_of_fits S F lim x.steps h, reprLim_of_fits S F lim x h⟩
 
-/-- what fits smaller limits fits larger ones (for scalars whose `fits` is monotone) -/
-theorem c18_fits_mono {L : Type} (S : ScalarOps L) (F : FmtFacts) (lim lim' : Limits)
-    (hle : lim.le lim' = true) (hS : ∀ v, S.fits lim v = true → S.fits lim' v = true)
-    (x : C18.Obj L) (h : fitsObj S F lim x = true) : fitsObj S F lim' x = true :=
-  fitsSteps_mono S F lim lim' hle hS x.steps h
+/-- **No object reaches a limit** of the `_BBRepr` instance read from /repo (facts obligation: each
+    is at least `sys.maxsize`, commit de451ae): whatever has at most `sys.maxsize` digits /
+    characters / elements / levels — in CPython every `len()` and every text is bounded by it — is
+    inside the limits; plain segments are printed like every other literal (`plainSeg = false`). -/
+theorem c18_within_maxsize (F : Facts) (hwf : WF F = true) (x : C18.Obj Scalar)
+    (h : fitsObj pyScalar F.fmt (Limits.uniform F.sysMaxsize false) x = true) :
+    fitsObj pyScalar F.fmt F.lim x = true := by
+  have hle := wf_limits_ge hwf
+  rw [wf_plainSeg hwf] at hle
+  exact fitsSteps_mono pyScalar F.fmt _ _ hle (pyScalar_fits_mono _ _ hle) x.steps h
 
-/-- **Sizes up to 1024 are inside the limits** of the `_BBRepr` instance read from /repo,
-    whatever they are (facts obligation: each is at least `minLimit`): ints of up to 1024
-    digits, str / bytes / other scalars whose repr has up to 1024 characters, containers of
-    up to 1024 elements nested up to 1024 deep, nested T / Path / slice arguments whose text
-    has up to 1024 characters. -/
+/-- … in particular everything up to 2^31 − 1, on every CPython -/
 theorem c18_within_min_limit (F : Facts) (hwf : WF F = true) (x : C18.Obj Scalar)
-    (h : fitsObj pyScalar F.fmt (Limits.uniform minLimit F.lim.plainSeg) x = true) :
-    fitsObj pyScalar F.fmt F.lim x = true :=
-  c18_fits_mono pyScalar F.fmt _ _ (wf_limits_ge hwf)
-    (pyScalar_fits_mono _ _ (wf_limits_ge hwf)) x h
+    (h : fitsObj pyScalar F.fmt (Limits.uniform minLimit false) x = true) :
+    fitsObj pyScalar F.fmt F.lim x = true := by
+  have hle := uniform_le minLimit F.sysMaxsize false (wf_sysMaxsize hwf)
+  exact c18_within_maxsize F hwf x
+    (fitsSteps_mono pyScalar F.fmt _ _ hle (pyScalar_fits_mono _ _ hle) x.steps h)
 
 /-- **`eval(repr(x))` of what glom prints**, limits included: for every valid object inside the
     limits of the instance, the text glom computes is read back as an object with the same root
@@ -140,11 +139,19 @@ theorem c18_repr_roundtrip {L : Type} (S : ScalarOps L) (F : Facts) (hwf : WF F 
     exact fitsSteps_norm S F.fmt hF F.lim x.steps hf
   cases x with
   | tobj r s =>
-    simp only [validObj, Bool.and_eq_true] at hv
-    obtain ⟨h1, h2⟩ := c18_roundtrip_t F hwf r s hv.2
-    refine ⟨_, h1, rfl, rfl, ?_⟩
-    rw [reprLim_of_fits S F.fmt F.lim _ (hfit _ rfl)]
-    exact h2
+    simp only [validObj, Bool.and_eq_true, Bool.or_eq_true] at hv
+    rcases hv.2 with hvt | ⟨⟨hseg, hvp⟩, hA⟩
+    · obtain ⟨h1, h2⟩ := c18_roundtrip_t F hwf r s hvt
+      refine ⟨_, h1, rfl, rfl, ?_⟩
+      rw [reprLim_of_fits S F.fmt F.lim _ (hfit _ rfl)]
+      exact h2
+    · -- the `path_t` of a Path: printed (and read back) as that Path
+      obtain ⟨y, h1, h2, h3, h4⟩ := c18_roundtrip_path F hwf r s hvp hA
+      have hfp : reprObj F.fmt (.tobj r s) = fmtPath F.fmt r s := fmtT_seg F.fmt r s hseg
+      rw [hfp]
+      refine ⟨y, h1, h2, h3, ?_⟩
+      rw [reprLim_of_fits S F.fmt F.lim y (hfit y h3)]
+      exact h4
   | pobj r s =>
     simp only [validObj, Bool.and_eq_true] at hv
     obtain ⟨y, h1, h2, h3, h4⟩ := c18_roundtrip_path F hwf r s hv.1.2 hv.2
@@ -172,22 +179,6 @@ theorem c18_seq_laws {α : Type} [DecidableEq α] (root : String) (steps : List 
 theorem c18_seq_checks {α : Type} [DecidableEq α] (root : String) (steps : List (String × α))
     (op : SeqOp α) : checkSeq root steps op (seqModel root steps op) = true := by
   simp [checkSeq, c18_seq_laws]
-
-/-- Python's slice semantics as modelled: every selected position exists, the
-    length is `len(range(*slice.indices(n)))`, `xs[:]` is `xs`, slicing commutes
-    with mapping the elements. -/
-theorem c18_pyslice {α β : Type} (xs : List α) (a b c : Option Int) :
-    (∀ ys, pySlice xs a b c = some ys →
-      ys.length = sliceLen (sliceStart xs.length (c.getD 1) a) (sliceStop xs.length (c.getD 1) b)
-        (c.getD 1)) ∧
-    (c.getD 1 ≠ 0 → ∀ i ∈ sliceIdx xs.length a b (c.getD 1), i < xs.length) ∧
-    (pySlice xs a b c = none ↔ c.getD 1 = 0) ∧
-    pySlice xs none none none = some xs ∧
-    (∀ f : α → β, pySlice (xs.map f) a b c = (pySlice xs a b c).map (List.map f)) := by
-  refine ⟨fun ys h => pySlice_length xs a b c ys h, fun h => sliceIdx_lt _ a b _ h, ?_,
-    pySlice_full xs, fun f => pySlice_map f xs a b c⟩
-  simp only [pySlice]
-  split <;> simp_all
 
 /-- `Path(p, q)` of two Paths has the root of `p` and the steps of `p` followed by those of `q`
     (`q` rooted at T; on an `A` path only attribute / item / segment steps can be appended). -/
@@ -300,9 +291,10 @@ example : validT [.call [.path "T" exP] []] = true := by
   simp [exP, validT, validStep, validArg, Arg.isSegArg, aOk, Step.isSeg]
 
 /-- inside the limits: `Path('a', T.b.__star__(), 2)` … -/
-example : fitsObj pyScalar F1 (Limits.uniform minLimit true) (.tobj "T" exP) = true := by
+example : fitsObj pyScalar F1 (Limits.uniform minLimit false) (.tobj "T" exP) = true := by
   simp [exP, fitsObj, fitsSteps, fitsStep, fitsArg, fitsLit, pyScalar, Obj.steps, nameFits, isDunder, dunder,
-    Limits.uniform, minLimit]
+    Limits.uniform, minLimit, Limits.segLevel, Scalar.fits]
+  decide
 
 /-- `T(10**40, [(), (1,), {'k': {2, 3}}, frozenset(), b'x'])['q' * 31]` -/
 def exBig : List (Step Scalar) :=
@@ -313,7 +305,7 @@ def exBig : List (Step Scalar) :=
    .item (.one (.lit (.str (List.replicate 31 113))))]
 
 /-- … and an int of 41 digits, a 31-character string (both past reprlib's defaults), nested containers -/
-example : fitsObj pyScalar F1 (Limits.uniform minLimit true) (.tobj "T" exBig) = true := by
+example : fitsObj pyScalar F1 (Limits.uniform minLimit false) (.tobj "T" exBig) = true := by
   simp [exBig, fitsObj, fitsSteps, fitsStep, fitsItem, fitsArg, fitsLit, pyScalar, Obj.steps,
     Limits.uniform, minLimit, Limits.maxOf, Scalar.fits, Scalar.text]
   decide
